@@ -142,7 +142,13 @@ func blockReturnsError(b *ssa.BasicBlock, depth int) bool {
 			// a function without results: leaving it is all it can do
 			return b.Parent().Signature.Results().Len() == 0
 		}
-		for _, v := range expandValues(t.Results[len(t.Results)-1]) {
+		// the returned value itself is known to be non-nil here (`if err != nil { return err }` where
+		// err merges several assignments, one of them nil)
+		res := t.Results[len(t.Results)-1]
+		if hasFact(b, func(f Fact) bool { return factRel(f, isValue(res), isNilConst) == "!=" }) {
+			return true
+		}
+		for _, v := range expandValues(res) {
 			if isNilConst(v) {
 				return false
 			}
